@@ -10,6 +10,11 @@ tie    : * translator (every run)
 search : fresh-twin oracle — after `query; mutate; query` and after random histories the
          value returned must equal that of a newly constructed object given the same
          current inputs; summary attributes likewise.
+round 3: nested machine (`ncoherent_of_wf`, `nwf_all`, `flat_covers_nested_all`); call-edge
+         sandwich and exact lru histories against it; two-step mutator histories; EVERY
+         translator-known public mutator of every class through derived invokers
+         (harness/c01_generic.py: replay twin, recomputation after cache_clear(), Network-level
+         fresh twin) and the coverage obligation.
 """
 import contextlib
 import inspect
